@@ -1203,6 +1203,700 @@ theorem SrvOpen.request (hT : TokOK a s0 t expire xnonce) {s : NetcodeServer} (h
   refine ⟨s', h1, ⟨h.cfg.trans h7, h10, by rw [h4]; exact h.addrFree, by rw [h4]; exact h.idFree, by rw [h3]; exact h.room,
     by rw [← e1]; exact h9, by rw [h4, h7.maxClients]; exact h.cap⟩, h2, h5, h6, h8⟩
 
+theorem identT_fields {p : Connection} (h : ident p = identT addr expire t) :
+    p.clientId = t.clientId ∧ p.addr = addr ∧ p.userData = t.userData ∧ p.sendKey = t.serverToClientKey ∧
+    p.receiveKey = t.clientToServerKey ∧ p.timeoutSeconds = t.timeoutSeconds ∧ p.expireTimestamp = expire := by
+  simp only [identT, ident, mkPending, Ident.mk.injEq] at h; exact h
+
+/-- a response echoing a challenge token of this server for the token's id and user data, sealed under the token's
+    client-to-server key, connects the half-open session `p` of `addr` -/
+theorem SrvOpen.connect (hT : TokOK a s0 t expire xnonce) {s : NetcodeServer} {p : Connection}
+    (h : SrvOpen a s0 addr t expire xnonce s) (hpf : pendingFind s.pendingClients addr = some p)
+    (hp : ident p = identT addr expire t) (hg : s.globalSequence < U64_MAX) (hc : s.challengeSequence < U64_MAX)
+    {cs seq : Nat} (hcs : cs < 2 ^ 64) (hseq : seq < 2 ^ 64) :
+    ∃ i, s.clients[i]? = some none ∧
+      s.processPacket a addr (Packet.sealedBytes a (.response cs (challengeToken a s0 t.clientId t.userData cs))
+          s0.protocolId seq t.clientToServerKey) =
+        .ok (.clientConnected p.clientId addr p.userData (connectKeepAlive a s p i),
+             { s with pendingClients := pendingRemove s.pendingClients addr
+                      clients := s.clients.set i (some (promoted p p.replayProtection s.currentTime)) }) := by
+  obtain ⟨f1, f2, f3, f4, f5, f6, f7⟩ := identT_fields hp
+  obtain ⟨i, hff⟩ : ∃ i, firstFreeSlot s.clients = some i := by
+    cases hf : firstFreeSlot s.clients with
+    | some i => exact ⟨i, rfl⟩
+    | none =>
+      have := firstFree_none_count.mp hf
+      have := h.inv.maxLe
+      have := h.cap
+      omega
+  have hbytes : Packet.sealedBytes a (.response cs (challengeToken a s0 t.clientId t.userData cs)) s0.protocolId seq
+      t.clientToServerKey = Packet.sealedBytes a (.response cs (challengeToken a s p.clientId p.userData cs))
+      s.protocolId seq p.receiveKey := by
+    rw [f1, f3, f5, challengeToken_cfg a h.cfg, h.cfg.protocolId]
+  rw [hbytes]
+  exact ⟨i, firstFree_some hff, response_connects_eq a hT.laws h.inv hg hc h.addrFree hpf (by rw [f1]; exact h.idFree) hff
+    (by rw [f3]; exact hT.wf.userData) (by rw [f1]; exact hT.wf.clientId) hcs hseq⟩
+
+/-- **the server holds the session** of the token: `T` more nanoseconds without timing it out, room for `N` more
+    keep-alives in its sequence number, its last send at least `D` old -/
+structure SrvConn (s0 : NetcodeServer) (addr : Addr) (t : PrivateConnectToken) (expire : Nat) (T N D : Nat)
+    (s : NetcodeServer) : Prop where
+  cfg : SameCfg s0 s
+  inv : ServerInv s
+  sess : ∃ i cn, At s.clients i cn ∧ ident cn = identT addr expire t ∧ cn.sequence + N < U64_MAX ∧
+    (cn.timeoutSeconds ≤ 0 ∨ s.currentTime + T ≤ cn.lastPacketReceivedTime + fromSecs cn.timeoutSeconds.toNat) ∧
+    cn.lastPacketSendTime + D ≤ s.currentTime
+
+theorem SrvConn.weaken {T N D T' N' D' : Nat} {s : NetcodeServer} (h : SrvConn s0 addr t expire T N D s) (hT : T' ≤ T)
+    (hN : N' ≤ N) (hD : D' ≤ D) : SrvConn s0 addr t expire T' N' D' s := by
+  obtain ⟨i, cn, h1, h2, h3, h4, h5⟩ := h.sess
+  refine ⟨h.cfg, h.inv, i, cn, h1, h2, by omega, ?_, by omega⟩
+  rcases h4 with h4 | h4
+  · exact Or.inl h4
+  · exact Or.inr (by omega)
+
+/-- `update(d)` on a server holding the session -/
+theorem SrvConn.tick {T N D d : Nat} {s : NetcodeServer} (h : SrvConn s0 addr t expire T N D s) (hd : d ≤ T)
+    (hclock : s.currentTime + d ≤ DURATION_MAX) : SrvConn s0 addr t expire (T - d) N (D + d) (srvTick s d) := by
+  obtain ⟨i, cn, h1, h2, h3, h4, h5⟩ := h.sess
+  refine ⟨⟨h.cfg.1, h.cfg.2, h.cfg.3, h.cfg.4, h.cfg.5, h.cfg.6⟩, update_inv h.inv (server_update_eq hclock), i, cn, h1, h2,
+    h3, ?_, ?_⟩
+  · rcases h4 with h4 | h4
+    · exact Or.inl h4
+    · right; show s.currentTime + d + (T - d) ≤ _; omega
+  · show cn.lastPacketSendTime + (D + d) ≤ s.currentTime + d; omega
+
+/-- the per-client tick on a server holding the session: it stays (a keep-alive may go out) -/
+theorem SrvConn.updateClient_any {T N D : Nat} {s : NetcodeServer} (h : SrvConn s0 addr t expire T (N + 1) D s)
+    (hclock : s.currentTime + fromSecs (2 ^ 31) ≤ DURATION_MAX) :
+    ∃ r' s', s.updateClient a t.clientId = .ok (r', s') ∧ SrvConn s0 addr t expire T N 0 s' ∧
+      s'.currentTime = s.currentTime ∧ s'.globalSequence = s.globalSequence ∧
+      s'.challengeSequence = s.challengeSequence := by
+  obtain ⟨i, cn, h1, h2, h3, h4, h5⟩ := h.sess
+  have hid := (identT_fields h2).1
+  have hf : findClientSlotById s.clients t.clientId = some i := h.inv.slots.findSlot_iff.mpr ⟨cn, h1, hid⟩
+  have hnt : ¬ TimedOut cn s.currentTime := by
+    rintro ⟨e1, e2⟩
+    rcases h4 with h4 | h4 <;> omega
+  rcases updateClient_spec a h.inv hf h1 with ⟨hto, _⟩ | ⟨_, e | ⟨out, _, _, e⟩⟩ | ⟨_, hn⟩
+  · exact absurd hto hnt
+  · exact ⟨_, _, e, ⟨h.cfg, h.inv, i, cn, h1, h2, by omega, h4, by omega⟩, rfl, rfl, rfl⟩
+  · have hinv : ServerInv { s with clients := s.clients.set i (some (sentKeepAlive cn s.currentTime)) } :=
+      updateClient_inv h.inv e
+    refine ⟨_, _, e, ⟨⟨h.cfg.1, h.cfg.2, h.cfg.3, h.cfg.4, h.cfg.5, h.cfg.6⟩, hinv, i, _, at_set_self (at_lt h1), h2, ?_, h4, ?_⟩,
+      rfl, rfl, rfl⟩
+    · show cn.sequence + 1 + N < U64_MAX; omega
+    · show s.currentTime + 0 ≤ s.currentTime; omega
+  · exact absurd ⟨hclock, by omega⟩ hn
+
+/-- the per-client tick on a server holding the session, send timer due: the keep-alive goes out -/
+theorem SrvConn.updateClient_due {T N D : Nat} {s : NetcodeServer} (h : SrvConn s0 addr t expire T (N + 1) D s)
+    (hclock : s.currentTime + fromSecs (2 ^ 31) ≤ DURATION_MAX) (hD : C.NETCODE_SEND_RATE_NS ≤ D) :
+    ∃ i cn, At s.clients i cn ∧ ident cn = identT addr expire t ∧ cn.sequence < 2 ^ 64 ∧
+      s.updateClient a t.clientId = .ok (.packetToSend addr (connectKeepAlive a s cn i),
+        { s with clients := s.clients.set i (some (sentKeepAlive cn s.currentTime)) }) ∧
+      ServerInv { s with clients := s.clients.set i (some (sentKeepAlive cn s.currentTime)) } := by
+  obtain ⟨i, cn, h1, h2, h3, h4, h5⟩ := h.sess
+  obtain ⟨hid, had, _⟩ := identT_fields h2
+  have hnt : ¬ TimedOut cn s.currentTime := by
+    rintro ⟨e1, e2⟩
+    rcases h4 with h4 | h4 <;> omega
+  have hU : U64_MAX = 2 ^ 64 - 1 := rfl
+  have e := NcLive2.updateClient_due a h.inv h1 hid hnt hclock (by omega) (by omega)
+  rw [had] at e
+  exact ⟨i, cn, h1, h2, by omega, e, updateClient_inv h.inv e⟩
+
+/-- a (retransmitted) response arriving from the connected address is ignored; the session stays as it is -/
+theorem SrvConn.recv_response (hT : TokOK a s0 t expire xnonce) {T N D : Nat} {s : NetcodeServer}
+    (h : SrvConn s0 addr t expire T N D s) (hg : s.globalSequence < U64_MAX) (hc : s.challengeSequence < U64_MAX)
+    {cs seq : Nat} (hcs : cs < 2 ^ 64) (hseq : seq < 2 ^ 64) :
+    ∃ s', s.processPacket a addr (Packet.sealedBytes a (.response cs (challengeToken a s0 t.clientId t.userData cs))
+          s0.protocolId seq t.clientToServerKey) = .ok (.none, s') ∧
+      SrvConn s0 addr t expire T N D s' ∧ s'.currentTime = s.currentTime ∧ s'.globalSequence = s.globalSequence ∧
+      s'.challengeSequence = s.challengeSequence := by
+  obtain ⟨i, cn, h1, h2, h3, h4, h5⟩ := h.sess
+  obtain ⟨f1, f2, f3, f4, f5, f6, f7⟩ := identT_fields h2
+  have hfa : findClientByAddr s.clients addr = some (i, cn) := h.inv.slots.findAddr_iff.mpr ⟨f2, h1⟩
+  have hdec := Packet.decode_sealedBytes a (.response cs (challengeToken a s0 t.clientId t.userData cs))
+    s.protocolId seq cn.receiveKey hT.laws hseq (by simp [Packet.packetType])
+    ⟨hcs, challengeToken_length a hT.laws s0 t.clientId hT.wf.userData _⟩ (some cn.replayProtection) rfl
+  simp only [Packet.stepWindow, Packet.packetType, PacketType.applyReplayProtection, Option.map_some,
+    Bool.false_eq_true, if_false] at hdec
+  rw [h.cfg.protocolId, f5] at hdec
+  have hpp := pp_connected_other a h.inv hg hc hfa (by rw [h.cfg.protocolId, f5]; exact hdec)
+    (by simp [Packet.packetType]) (by simp [Packet.packetType]) (by simp [Packet.packetType])
+  have hinv := ppOut_inv h.inv (pp_ok h.inv hpp)
+  exact ⟨_, hpp, ⟨⟨h.cfg.1, h.cfg.2, h.cfg.3, h.cfg.4, h.cfg.5, h.cfg.6⟩, hinv, i, _, at_set_self (at_lt h1), h2, h3, h4, h5⟩,
+    rfl, rfl, rfl⟩
+
 end Srv
+
+/-! ### B.5 client phases, budgets -/
+
+/-- the client is asking for a connection with the token -/
+structure CliReq (a : AEAD) (s0 : NetcodeServer) (t : PrivateConnectToken) (expire : Nat) (xnonce : Bytes)
+    (c : NetcodeClient) : Prop where
+  st : c.state = .sendingConnectionRequest
+  tok : TokenFor a s0 t expire xnonce c.connectToken
+  sendLe : ∀ tm, c.lastPacketSendTime = some tm → tm ≤ c.currentTime
+  rp : ∀ k, c.replayProtection.alreadyReceived k = false
+
+/-- the client answers a challenge of the server -/
+structure CliResp (a : AEAD) (s0 : NetcodeServer) (t : PrivateConnectToken) (expire : Nat) (xnonce : Bytes)
+    (c : NetcodeClient) : Prop where
+  st : c.state = .sendingConnectionResponse
+  tok : TokenFor a s0 t expire xnonce c.connectToken
+  sendLe : ∀ tm, c.lastPacketSendTime = some tm → tm ≤ c.currentTime
+  rp : ∀ k, c.replayProtection.alreadyReceived k = false
+  cs : c.challengeTokenSequence < 2 ^ 64
+  td : c.challengeTokenData = challengeToken a s0 t.clientId t.userData c.challengeTokenSequence
+
+/-- what a round in which the client receives nothing leaves alone -/
+structure CliSame (c c' : NetcodeClient) : Prop where
+  state : c'.state = c.state
+  tok : c'.connectToken = c.connectToken
+  start : c'.connectStartTime = c.connectStartTime
+  recv : c'.lastPacketReceivedTime = c.lastPacketReceivedTime
+  srv : c'.serverAddr = c.serverAddr
+  idx : c'.serverAddrIndex = c.serverAddrIndex
+  rate : c'.sendRate = c.sendRate
+  seq : c.sequence ≤ c'.sequence
+
+theorem CliSame.refl (c : NetcodeClient) : CliSame c c := ⟨rfl, rfl, rfl, rfl, rfl, rfl, rfl, Nat.le_refl _⟩
+theorem CliSame.trans {c1 c2 c3 : NetcodeClient} (h1 : CliSame c1 c2) (h2 : CliSame c2 c3) : CliSame c1 c3 :=
+  ⟨h2.1.trans h1.1, h2.2.trans h1.2, h2.3.trans h1.3, h2.4.trans h1.4, h2.5.trans h1.5, h2.6.trans h1.6,
+    h2.7.trans h1.7, Nat.le_trans h1.8 h2.8⟩
+
+/-- **the budgets of a handshake in progress**: `T` nanoseconds and `N` rounds can still pass without the client's
+    token window closing or its time-out firing (`CBudget`), the server's clock reaching the token's expiry second
+    or overflowing, the token's time-out (as the server will apply it to the session) firing, or one of the three
+    sequence counters overflowing. -/
+structure Budget (t : PrivateConnectToken) (expire : Nat) (c : NetcodeClient) (s : NetcodeServer) (T N : Nat) : Prop where
+  cb : CBudget c T
+  sclock : s.currentTime + T + fromSecs (2 ^ 31) ≤ DURATION_MAX
+  sexp : asSecs (s.currentTime + T) < expire
+  stmo : t.timeoutSeconds ≤ 0 ∨ T ≤ fromSecs t.timeoutSeconds.toNat
+  cseq : c.sequence + N < U64_MAX
+  gseq : s.globalSequence + N < U64_MAX
+  chseq : s.challengeSequence + N < U64_MAX
+
+theorem Budget.step {t : PrivateConnectToken} {expire : Nat} {c c' : NetcodeClient} {s s' : NetcodeServer} {T N d : Nat}
+    (hb : Budget t expire c s T (N + 1)) (hd : d ≤ T) (hcb : CBudget c' (T - d))
+    (h1 : s'.currentTime = s.currentTime + d) (h2 : c'.sequence ≤ c.sequence + 1)
+    (h3 : s'.globalSequence ≤ s.globalSequence + 1) (h4 : s'.challengeSequence ≤ s.challengeSequence + 1) :
+    Budget t expire c' s' (T - d) N := by
+  have e1 := hb.sclock; have e2 := hb.sexp; have e3 := hb.stmo; have e4 := hb.cseq; have e5 := hb.gseq
+  have e6 := hb.chseq
+  have ht : s.currentTime + d + (T - d) = s.currentTime + T := by omega
+  refine ⟨hcb, by rw [h1]; omega, by rw [h1, ht]; exact e2, ?_, by omega, by omega, by omega⟩
+  rcases e3 with e | e
+  · exact Or.inl e
+  · exact Or.inr (by omega)
+
+theorem Budget.weaken {t : PrivateConnectToken} {expire : Nat} {c : NetcodeClient} {s : NetcodeServer} {T N N' : Nat}
+    (hb : Budget t expire c s T N) (hN : N' ≤ N) : Budget t expire c s T N' :=
+  ⟨hb.cb, hb.sclock, hb.sexp, hb.stmo, by have := hb.cseq; omega, by have := hb.gseq; omega, by have := hb.chseq; omega⟩
+
+/-- both sides are connected: the client is `Connected`, the server holds a session with the identity the token
+    gives (id, user data, keys, timeout, expiry) and the address the client talked from -/
+def Established (addr : Addr) (t : PrivateConnectToken) (expire : Nat) (c : NetcodeClient) (s : NetcodeServer) : Prop :=
+  c.state = .connected ∧ ServerInv s ∧ ∃ i cn, At s.clients i cn ∧ ident cn = identT addr expire t
+
+theorem Established.isClientConnected {addr : Addr} {t : PrivateConnectToken} {expire : Nat} {c : NetcodeClient}
+    {s : NetcodeServer} (h : Established addr t expire c s) : s.isClientConnected t.clientId = true := by
+  obtain ⟨_, _, i, cn, h1, h2⟩ := h
+  exact isClientConnected_iff.mpr ⟨i, cn, h1, (identT_fields h2).1⟩
+
+section Rounds
+variable {a : AEAD} {s0 : NetcodeServer} {addr me : Addr} {t : PrivateConnectToken} {expire : Nat} {xnonce : Bytes}
+
+theorem send_rate_pos : 0 < C.NETCODE_SEND_RATE_NS := by decide
+
+/-- server side of a round in which nothing reaches an open server -/
+theorem srv_idle_round {s : NetcodeServer} {d : Nat} (hs : SrvOpen a s0 addr t expire xnonce s)
+    (hd : s.currentTime + d ≤ DURATION_MAX) :
+    s.update d = .ok (srvTick s d) ∧ SrvOpen a s0 addr t expire xnonce (srvTick s d) ∧
+      (srvTick s d).updateClient a t.clientId = .ok (.none, srvTick s d) :=
+  ⟨server_update_eq hd, hs.tick hd, (hs.tick hd).idle⟩
+
+/-- **request phase, a round in which the client hears nothing** (its datagram is lost, goes to another server, the
+    answer is lost, or the send-rate gate is closed): the client keeps asking, the server stays open -/
+theorem round_req_lossy (hT : TokOK a s0 t expire xnonce) {c : NetcodeClient} {s : NetcodeServer} {T N d : Nat} {f : Fate}
+    (hc : CliReq a s0 t expire xnonce c) (hs : SrvOpen a s0 addr t expire xnonce s)
+    (hb : Budget t expire c s T (N + 1)) (hd : d ≤ T) (hf : f ≠ .delivered ∨ c.serverAddr ≠ me) :
+    ∃ c' s', round a addr me t.clientId f d (c, s) = some (c', s') ∧ CliReq a s0 t expire xnonce c' ∧
+      SrvOpen a s0 addr t expire xnonce s' ∧ Budget t expire c' s' (T - d) N ∧ CliSame c c' ∧
+      c'.currentTime = c.currentTime + d ∧ s'.currentTime = s.currentTime + d := by
+  have hU : U64_MAX = 2 ^ 64 - 1 := rfl
+  have hclk : s.currentTime + d ≤ DURATION_MAX := by have := hb.sclock; omega
+  obtain ⟨hsu, hs1, hidle⟩ := srv_idle_round hs hclk
+  by_cases hg : GateOpen c d
+  · have hcu := update_sends_request a hT.laws hc.tok hT.wf hT.xn hc.st hb.cb hd (by have := hb.cseq; omega) hc.sendLe hg
+    have hc' : CliReq a s0 t expire xnonce (cliSent c d) :=
+      ⟨hc.st, hc.tok, fun tm e => by simp only [Option.some.injEq] at e; subst e; exact Nat.le_refl _, hc.rp⟩
+    have hcb : CBudget (cliSent c d) (T - d) := hb.cb.step hd rfl rfl rfl (Or.inl rfl)
+    have hsame : CliSame c (cliSent c d) := ⟨rfl, rfl, rfl, rfl, rfl, rfl, rfl, Nat.le_succ _⟩
+    by_cases hl : f = .upLost ∨ c.serverAddr ≠ me
+    · exact ⟨cliSent c d, srvTick s d, round_intro hsu hcu (up_lost a addr me _ hl) hidle (down_nothing a addr f _ rfl rfl),
+        hc', hs1, hb.step hd hcb rfl (Nat.le_refl _) (Nat.le_succ _) (Nat.le_succ _), hsame, rfl, rfl⟩
+    · have hf' : f ≠ .upLost := fun e => hl (Or.inl e)
+      have hme : c.serverAddr = me := Classical.byContradiction fun e => hl (Or.inr e)
+      have hfd : f ≠ .delivered := by
+        rcases hf with h | h
+        · exact h
+        · exact absurd hme h
+      obtain ⟨s2, hpp, hs2, hpf, hcs, hgs, htm⟩ := hs1.request hT (by have := hb.gseq; show s.globalSequence < _; omega)
+        (by have := hb.chseq; show s.challengeSequence < _; omega)
+        (Nat.lt_of_le_of_lt (asSecs_mono (by show s.currentTime + d ≤ s.currentTime + T; omega)) hb.sexp)
+      refine ⟨cliSent c d, s2, round_intro hsu hcu (by rw [hme]; exact up_arrives a addr me hf' hpp) hs2.idle
+        (down_lossy a addr hfd _ _ _), hc', hs2, hb.step hd hcb htm (Nat.le_refl _) ?_ ?_, hsame, rfl, htm⟩
+      · rw [hgs]; exact Nat.le_refl _
+      · rw [hcs]; exact Nat.le_refl _
+  · have hcu := update_gate_closed a (Or.inl hc.st) hb.cb hd hc.sendLe hg
+    have hc' : CliReq a s0 t expire xnonce (cliTick c d) :=
+      ⟨hc.st, hc.tok, fun tm e => Nat.le_trans (hc.sendLe tm e) (Nat.le_add_right _ _), hc.rp⟩
+    have hcb : CBudget (cliTick c d) (T - d) := hb.cb.step hd rfl rfl rfl (Or.inl rfl)
+    exact ⟨cliTick c d, srvTick s d, round_intro hsu hcu (up_none a addr me f _) hidle (down_nothing a addr f _ rfl rfl),
+      hc', hs1, hb.step hd hcb rfl (Nat.le_succ _) (Nat.le_succ _) (Nat.le_succ _),
+      ⟨rfl, rfl, rfl, rfl, rfl, rfl, rfl, Nat.le_refl _⟩, rfl, rfl⟩
+
+/-- the server part and the way down of a `delivered` round whose datagram is the request: challenge, and the client
+    moves to the response phase (send timer cleared) -/
+theorem round_request_arrives (hT : TokOK a s0 t expire xnonce) {c c1 : NetcodeClient} {s : NetcodeServer} {d : Nat}
+    (hcu : c.update a d = .ok (some (requestBytes a s0 t expire xnonce, me), c1))
+    (hc1 : CliReq a s0 t expire xnonce c1) (hs : SrvOpen a s0 addr t expire xnonce s)
+    (hclk : s.currentTime + d ≤ DURATION_MAX) (hg : s.globalSequence + 1 < U64_MAX)
+    (hch : s.challengeSequence + 1 < U64_MAX) (hnow : asSecs (s.currentTime + d) < expire) :
+    ∃ c' s', round a addr me t.clientId .delivered d (c, s) = some (c', s') ∧ CliResp a s0 t expire xnonce c' ∧
+      SrvOpen a s0 addr t expire xnonce s' ∧
+      (∃ p, pendingFind s'.pendingClients addr = some p ∧ ident p = identT addr expire t) ∧
+      s'.currentTime = s.currentTime + d ∧ s'.globalSequence = s.globalSequence + 1 ∧
+      s'.challengeSequence = s.challengeSequence + 1 ∧
+      c'.lastPacketSendTime = none ∧ c'.currentTime = c1.currentTime ∧ c'.lastPacketReceivedTime = c1.currentTime ∧
+      c'.connectStartTime = c1.connectStartTime ∧ c'.connectToken = c1.connectToken ∧ c'.sequence = c1.sequence ∧
+      c'.serverAddr = c1.serverAddr ∧ c'.sendRate = c1.sendRate := by
+  have hU : U64_MAX = 2 ^ 64 - 1 := rfl
+  obtain ⟨hsu, hs1, _⟩ := srv_idle_round hs hclk
+  obtain ⟨s2, hpp, hs2, hpf, hcs, hgs, htm⟩ := hs1.request hT (by show s.globalSequence < _; omega)
+    (by show s.challengeSequence < _; omega) hnow
+  have hchal := progress_challenge a hT.laws (c := c1) (s := srvTick s d) (t := t) hc1.st hc1.tok.s2c
+    (hc1.tok.pid.trans hs.cfg.protocolId.symm) (by show s.globalSequence < 2 ^ 64; omega)
+    (by show s.challengeSequence + 1 < 2 ^ 64; omega) hT.wf.userData
+  refine ⟨_, s2, round_intro hsu hcu (up_arrives a addr me (by decide) hpp) hs2.idle
+    (down_first a addr (by simp [answerTo]) rfl hchal), ?_, hs2, ⟨_, hpf, rfl⟩, htm, hgs, hcs, rfl, rfl, rfl, rfl, rfl, rfl,
+    rfl, rfl⟩
+  exact ⟨rfl, hc1.tok, (fun tm e => by cases e), hc1.rp, by show s.challengeSequence + 1 < 2 ^ 64; omega,
+    challengeToken_cfg a hs1.cfg _ _ _⟩
+
+/-- **request phase, a `delivered` round with the gate open**: request up, challenge down; the client is in the
+    response phase with its send timer cleared, the server holds the half-open session -/
+theorem round_req_delivered (hT : TokOK a s0 t expire xnonce) {c : NetcodeClient} {s : NetcodeServer} {T N d : Nat}
+    (hc : CliReq a s0 t expire xnonce c) (hs : SrvOpen a s0 addr t expire xnonce s)
+    (hb : Budget t expire c s T (N + 1)) (hd : d ≤ T) (hme : c.serverAddr = me) (hg : GateOpen c d) :
+    ∃ c' s', round a addr me t.clientId .delivered d (c, s) = some (c', s') ∧ CliResp a s0 t expire xnonce c' ∧
+      SrvOpen a s0 addr t expire xnonce s' ∧
+      (∃ p, pendingFind s'.pendingClients addr = some p ∧ ident p = identT addr expire t) ∧
+      Budget t expire c' s' (T - d) N ∧ c'.lastPacketSendTime = none ∧ c'.serverAddr = me ∧
+      c'.sendRate = c.sendRate ∧ c'.currentTime = c.currentTime + d ∧ s'.currentTime = s.currentTime + d := by
+  have hU : U64_MAX = 2 ^ 64 - 1 := rfl
+  have hcu := update_sends_request a hT.laws hc.tok hT.wf hT.xn hc.st hb.cb hd (by have := hb.cseq; omega) hc.sendLe hg
+  rw [hme] at hcu
+  have hc1 : CliReq a s0 t expire xnonce (cliSent c d) :=
+    ⟨hc.st, hc.tok, fun tm e => by simp only [Option.some.injEq] at e; subst e; exact Nat.le_refl _, hc.rp⟩
+  obtain ⟨c', s', hr, hc', hs', hp, e1, e2, e3, e4, e5, e6, e7, e8, e9, e10, e11⟩ := round_request_arrives hT hcu hc1 hs
+    (by have := hb.sclock; omega) (by have := hb.gseq; omega) (by have := hb.chseq; omega)
+    (Nat.lt_of_le_of_lt (asSecs_mono (by omega)) hb.sexp)
+  have hcb : CBudget c' (T - d) := hb.cb.step hd e5 e8 e7 (Or.inr (by rw [e6, e5]))
+  exact ⟨c', s', hr, hc', hs', hp, hb.step hd hcb e1 (by rw [e9]; exact Nat.le_refl _) (by rw [e2]; exact Nat.le_refl _)
+    (by rw [e3]; exact Nat.le_refl _), e4, by rw [e10]; exact hme, e11, e5, e1⟩
+
+/-- the response datagram of a client in the response phase -/
+theorem responseBytes_eq {c : NetcodeClient} (hc : CliResp a s0 t expire xnonce c) :
+    responseBytes a c = Packet.sealedBytes a
+      (.response c.challengeTokenSequence (challengeToken a s0 t.clientId t.userData c.challengeTokenSequence))
+      s0.protocolId c.sequence t.clientToServerKey := by
+  unfold responseBytes
+  rw [← hc.td, hc.tok.pid, hc.tok.c2s]
+
+/-- `update(d)` of a client in the response phase, within its budget: it stays there; it emits nothing (gate closed)
+    or its response with the current sequence number -/
+theorem cli_resp_update (hT : TokOK a s0 t expire xnonce) {c : NetcodeClient} {T d : Nat}
+    (hc : CliResp a s0 t expire xnonce c) (hb : CBudget c T) (hd : d ≤ T) (hseq : c.sequence < U64_MAX) :
+    ∃ out c1, c.update a d = .ok (out, c1) ∧ CliResp a s0 t expire xnonce c1 ∧ CliSame c c1 ∧
+      c1.currentTime = c.currentTime + d ∧ c1.sequence ≤ c.sequence + 1 ∧
+      ((out = none ∧ ¬ GateOpen c d) ∨ (out = some (responseBytes a c, c.serverAddr) ∧ GateOpen c d)) := by
+  have htd : c.challengeTokenData.length = 300 := by
+    rw [hc.td]; exact challengeToken_length a hT.laws s0 t.clientId hT.wf.userData _
+  by_cases hg : GateOpen c d
+  · refine ⟨_, cliSent c d, update_sends_response a hT.laws hc.st htd hb hd hseq hc.sendLe hg, ?_,
+      ⟨rfl, rfl, rfl, rfl, rfl, rfl, rfl, Nat.le_succ _⟩, rfl, Nat.le_refl _, Or.inr ⟨rfl, hg⟩⟩
+    exact ⟨hc.st, hc.tok, fun tm e => by simp only [Option.some.injEq] at e; subst e; exact Nat.le_refl _, hc.rp, hc.cs,
+      hc.td⟩
+  · refine ⟨_, cliTick c d, update_gate_closed a (Or.inr hc.st) hb hd hc.sendLe hg, ?_,
+      ⟨rfl, rfl, rfl, rfl, rfl, rfl, rfl, Nat.le_refl _⟩, rfl, Nat.le_succ _, Or.inl ⟨rfl, hg⟩⟩
+    exact ⟨hc.st, hc.tok, fun tm e => Nat.le_trans (hc.sendLe tm e) (Nat.le_add_right _ _), hc.rp, hc.cs, hc.td⟩
+
+/-- server side of a round in which the response reaches the open server holding the half-open session: the
+    session is promoted, the tick of the same round has nothing to do -/
+theorem srv_response_round (hT : TokOK a s0 t expire xnonce) {s : NetcodeServer} {p : Connection} {d cs seq T' N' : Nat}
+    (hs : SrvOpen a s0 addr t expire xnonce s) (hpf : pendingFind s.pendingClients addr = some p)
+    (hp : ident p = identT addr expire t) (hclk : s.currentTime + d + fromSecs (2 ^ 31) ≤ DURATION_MAX)
+    (hexp : asSecs (s.currentTime + d) ≤ expire) (hg : s.globalSequence < U64_MAX)
+    (hch : s.challengeSequence < U64_MAX) (hcs : cs < 2 ^ 64) (hseq : seq < 2 ^ 64)
+    (hT' : t.timeoutSeconds ≤ 0 ∨ T' ≤ fromSecs t.timeoutSeconds.toNat) (hN' : 1 + N' < U64_MAX) :
+    ∃ i s2, (srvTick s d).processPacket a addr
+        (Packet.sealedBytes a (.response cs (challengeToken a s0 t.clientId t.userData cs)) s0.protocolId seq
+          t.clientToServerKey) =
+        .ok (.clientConnected p.clientId addr p.userData (connectKeepAlive a (srvTick s d) p i), s2) ∧
+      s2.updateClient a t.clientId = .ok (.none, s2) ∧ SrvConn s0 addr t expire T' N' 0 s2 ∧
+      s2.currentTime = s.currentTime + d ∧ s2.globalSequence = s.globalSequence ∧
+      s2.challengeSequence = s.challengeSequence ∧ p.sequence = 0 := by
+  have hs1 := hs.tick (d := d) (by omega)
+  obtain ⟨f1, f2, f3, f4, f5, f6, f7⟩ := identT_fields hp
+  have hpf1 := pending_survives_tick (d := d) hpf (by rw [f7]; exact hexp)
+  obtain ⟨i, hfree, hpp⟩ := hs1.connect hT hpf1 hp hg hch hcs hseq
+  have hinv2 := ppOut_inv hs1.inv (pp_ok hs1.inv hpp)
+  have hps : p.sequence = 0 := (hs1.inv.pend (addr, p) (NS.pendingFind_mem hpf1)).seq
+  have hlt : i < (srvTick s d).clients.length := (List.getElem?_eq_some_iff.mp hfree).1
+  have hat : At ((srvTick s d).clients.set i (some (promoted p p.replayProtection (srvTick s d).currentTime))) i
+      (promoted p p.replayProtection (srvTick s d).currentTime) := at_set_self hlt
+  have hU : U64_MAX = 2 ^ 64 - 1 := rfl
+  have hq := updateClient_quiet a hinv2 hat f1 (no_spurious_timeout (Or.inr (Nat.le_add_right _ _))) hclk
+    (by show p.sequence + 1 < U64_MAX; omega)
+    (by show s.currentTime + d < s.currentTime + d + C.NETCODE_SEND_RATE_NS; have := send_rate_pos; omega)
+  refine ⟨i, _, hpp, hq, ⟨⟨hs.cfg.1, hs.cfg.2, hs.cfg.3, hs.cfg.4, hs.cfg.5, hs.cfg.6⟩, hinv2, i, _, hat, hp, ?_, ?_, ?_⟩,
+    rfl, rfl, rfl, hps⟩
+  · show p.sequence + 1 + N' < U64_MAX; omega
+  · show p.timeoutSeconds ≤ 0 ∨ s.currentTime + d + T' ≤ s.currentTime + d + fromSecs p.timeoutSeconds.toNat
+    rw [f6]
+    rcases hT' with h | h
+    · exact Or.inl h
+    · exact Or.inr (by omega)
+  · show s.currentTime + d + 0 ≤ s.currentTime + d; omega
+
+/-- **response phase, a `delivered` round with the gate open**: response up, `ClientConnected` + keep-alive down —
+    both sides connected -/
+theorem round_resp_delivered (hT : TokOK a s0 t expire xnonce) {c : NetcodeClient} {s : NetcodeServer} {T N d : Nat}
+    (hc : CliResp a s0 t expire xnonce c) (hs : SrvOpen a s0 addr t expire xnonce s)
+    (hp : ∃ p, pendingFind s.pendingClients addr = some p ∧ ident p = identT addr expire t)
+    (hb : Budget t expire c s T (N + 1)) (hd : d ≤ T) (hme : c.serverAddr = me) (hg : GateOpen c d) :
+    ∃ c' s', round a addr me t.clientId .delivered d (c, s) = some (c', s') ∧ Established addr t expire c' s' ∧
+      c'.currentTime = c.currentTime + d ∧ s'.currentTime = s.currentTime + d := by
+  have hU : U64_MAX = 2 ^ 64 - 1 := rfl
+  obtain ⟨p, hpf, hpi⟩ := hp
+  have htd : c.challengeTokenData.length = 300 := by
+    rw [hc.td]; exact challengeToken_length a hT.laws s0 t.clientId hT.wf.userData _
+  have hcu := update_sends_response a hT.laws hc.st htd hb.cb hd (by have := hb.cseq; omega) hc.sendLe hg
+  rw [hme, responseBytes_eq hc] at hcu
+  have e1 := hb.sclock; have e2 := hb.sexp; have e4 := hb.cseq; have e5 := hb.gseq; have e6 := hb.chseq
+  obtain ⟨i, s2, hpp, hq, hconn, htm, _, _, hps⟩ := srv_response_round hT (d := d) (cs := c.challengeTokenSequence)
+    (seq := c.sequence) (T' := 0) (N' := 0) hs hpf hpi (by omega)
+    (Nat.le_of_lt (Nat.lt_of_le_of_lt (asSecs_mono (by omega)) e2)) (by omega) (by omega) hc.cs (by omega)
+    (Or.inr (Nat.zero_le _)) (by rw [hU]; decide)
+  obtain ⟨f1, f2, f3, f4, f5, f6, f7⟩ := identT_fields hpi
+  have hka := progress_keepalive a hT.laws (c := cliSent c d) (s := srvTick s d) (p := p) (i := i) hc.st
+    (hc.tok.s2c.trans f4.symm) (hc.tok.pid.trans hs.cfg.protocolId.symm) (by rw [hps]; decide) (hc.rp _)
+  have hsu : s.update d = .ok (srvTick s d) := server_update_eq (by omega)
+  obtain ⟨j, cn, hat, hid, _⟩ := hconn.sess
+  exact ⟨_, s2, round_intro hsu hcu (up_arrives a addr me (by decide) hpp) hq
+    (down_first a addr (by simp [answerTo]) rfl hka), ⟨rfl, hconn.inv, j, cn, hat, hid⟩, rfl, htm⟩
+
+/-- **response phase, a round in which the client hears nothing**: either the server did not get the response (it
+    keeps the half-open session) or it did and now holds the session — the client keeps answering -/
+theorem round_resp_lossy (hT : TokOK a s0 t expire xnonce) {c : NetcodeClient} {s : NetcodeServer} {T N d : Nat} {f : Fate}
+    (hc : CliResp a s0 t expire xnonce c) (hs : SrvOpen a s0 addr t expire xnonce s)
+    (hp : ∃ p, pendingFind s.pendingClients addr = some p ∧ ident p = identT addr expire t)
+    (hb : Budget t expire c s T (N + 1)) (hd : d ≤ T) (hf : f ≠ .delivered ∨ c.serverAddr ≠ me) :
+    ∃ c' s', round a addr me t.clientId f d (c, s) = some (c', s') ∧ CliResp a s0 t expire xnonce c' ∧
+      ((SrvOpen a s0 addr t expire xnonce s' ∧
+          ∃ p, pendingFind s'.pendingClients addr = some p ∧ ident p = identT addr expire t) ∨
+        SrvConn s0 addr t expire (T - d) N 0 s') ∧
+      Budget t expire c' s' (T - d) N ∧ CliSame c c' ∧ c'.currentTime = c.currentTime + d ∧
+      s'.currentTime = s.currentTime + d := by
+  have hU : U64_MAX = 2 ^ 64 - 1 := rfl
+  obtain ⟨p, hpf, hpi⟩ := hp
+  have e1 := hb.sclock; have e2 := hb.sexp; have e3 := hb.stmo; have e4 := hb.cseq; have e5 := hb.gseq
+  have e6 := hb.chseq
+  have hclk : s.currentTime + d ≤ DURATION_MAX := by omega
+  obtain ⟨hsu, hs1, hidle⟩ := srv_idle_round hs hclk
+  have hexp : asSecs (s.currentTime + d) ≤ expire := Nat.le_of_lt (Nat.lt_of_le_of_lt (asSecs_mono (by omega)) e2)
+  have hpf1 := pending_survives_tick (d := d) hpf (by rw [(identT_fields hpi).2.2.2.2.2.2]; exact hexp)
+  obtain ⟨out, c1, hcu, hc1, hsame, htime, hsq, hout⟩ := cli_resp_update hT hc hb.cb hd (by omega)
+  have hcb : CBudget c1 (T - d) := hb.cb.step hd htime hsame.tok hsame.start (Or.inl hsame.recv)
+  -- nothing reaches the server
+  have quiet : ∀ r, up a addr me f out (srvTick s d) = some (.none, srvTick s d) →
+      down a addr f .none r c1 = some c1 → (srvTick s d).updateClient a t.clientId = .ok (r, srvTick s d) →
+      ∃ c' s', round a addr me t.clientId f d (c, s) = some (c', s') ∧ CliResp a s0 t expire xnonce c' ∧
+      ((SrvOpen a s0 addr t expire xnonce s' ∧
+          ∃ p, pendingFind s'.pendingClients addr = some p ∧ ident p = identT addr expire t) ∨
+        SrvConn s0 addr t expire (T - d) N 0 s') ∧
+      Budget t expire c' s' (T - d) N ∧ CliSame c c' ∧ c'.currentTime = c.currentTime + d ∧
+      s'.currentTime = s.currentTime + d := by
+    intro r hup hdown htick
+    exact ⟨c1, srvTick s d, round_intro hsu hcu hup htick hdown, hc1, Or.inl ⟨hs1, p, hpf1, hpi⟩,
+      hb.step hd hcb rfl hsq (Nat.le_succ _) (Nat.le_succ _), hsame, htime, rfl⟩
+  rcases hout with ⟨rfl, _⟩ | ⟨rfl, hg⟩
+  · exact quiet .none (up_none a addr me f _) (down_nothing a addr f _ rfl rfl) hidle
+  · by_cases hl : f = .upLost ∨ c.serverAddr ≠ me
+    · exact quiet .none (up_lost a addr me _ hl) (down_nothing a addr f _ rfl rfl) hidle
+    · have hf' : f ≠ .upLost := fun e => hl (Or.inl e)
+      have hme : c.serverAddr = me := Classical.byContradiction fun e => hl (Or.inr e)
+      have hfd : f ≠ .delivered := by
+        rcases hf with h | h
+        · exact h
+        · exact absurd hme h
+      rw [hme, responseBytes_eq hc] at hcu
+      obtain ⟨i, s2, hpp, hq, hconn, htm, hgs, hcs, _⟩ := srv_response_round hT (d := d)
+        (cs := c.challengeTokenSequence) (seq := c.sequence) (T' := T - d) (N' := N) hs hpf hpi (by omega) hexp
+        (by omega) (by omega) hc.cs (by omega)
+        (by rcases e3 with h | h; exact Or.inl h; exact Or.inr (by omega)) (by omega)
+      exact ⟨c1, s2, round_intro hsu hcu (up_arrives a addr me hf' hpp) hq (down_lossy a addr hfd _ _ _), hc1,
+        Or.inr hconn, hb.step hd hcb htm hsq (by rw [hgs]; exact Nat.le_succ _) (by rw [hcs]; exact Nat.le_succ _), hsame,
+        htime, htm⟩
+
+/-- the way up into a server that already holds the session: whatever the client emitted (nothing, or its response),
+    delivered or not, the result is `None` and the session stays -/
+theorem srv_conn_up (hT : TokOK a s0 t expire xnonce) {s1 : NetcodeServer} {T N D cs seq : Nat} {f : Fate}
+    {out : Option (Bytes × Addr)} (h : SrvConn s0 addr t expire T N D s1) (hg : s1.globalSequence < U64_MAX)
+    (hc : s1.challengeSequence < U64_MAX) (hcs : cs < 2 ^ 64) (hseq : seq < 2 ^ 64)
+    (hout : out = none ∨ ∃ dst, out = some (Packet.sealedBytes a
+      (.response cs (challengeToken a s0 t.clientId t.userData cs)) s0.protocolId seq t.clientToServerKey, dst)) :
+    ∃ s2, up a addr me f out s1 = some (.none, s2) ∧ SrvConn s0 addr t expire T N D s2 ∧
+      s2.currentTime = s1.currentTime ∧ s2.globalSequence = s1.globalSequence ∧
+      s2.challengeSequence = s1.challengeSequence := by
+  rcases hout with rfl | ⟨dst, rfl⟩
+  · exact ⟨s1, rfl, h, rfl, rfl, rfl⟩
+  · by_cases hl : f = .upLost ∨ dst ≠ me
+    · exact ⟨s1, up_lost a addr me _ hl, h, rfl, rfl, rfl⟩
+    · have hf' : f ≠ .upLost := fun e => hl (Or.inl e)
+      have hme : dst = me := Classical.byContradiction fun e => hl (Or.inr e)
+      obtain ⟨s2, hpp, h2, e1, e2, e3⟩ := h.recv_response hT hg hc hcs hseq
+      exact ⟨s2, by rw [hme]; exact up_arrives a addr me hf' hpp, h2, e1, e2, e3⟩
+
+/-- **the keep-alive was lost, a round in which the client hears nothing**: the client keeps sending its response,
+    the server ignores it and keeps the session (its tick may send a keep-alive, which is lost) -/
+theorem round_half_lossy (hT : TokOK a s0 t expire xnonce) {c : NetcodeClient} {s : NetcodeServer} {T N D d : Nat} {f : Fate}
+    (hc : CliResp a s0 t expire xnonce c) (hs : SrvConn s0 addr t expire T (N + 1) D s)
+    (hb : Budget t expire c s T (N + 1)) (hd : d ≤ T) (hf : f ≠ .delivered) :
+    ∃ c' s', round a addr me t.clientId f d (c, s) = some (c', s') ∧ CliResp a s0 t expire xnonce c' ∧
+      SrvConn s0 addr t expire (T - d) N 0 s' ∧ Budget t expire c' s' (T - d) N ∧ CliSame c c' ∧
+      c'.currentTime = c.currentTime + d ∧ s'.currentTime = s.currentTime + d := by
+  have hU : U64_MAX = 2 ^ 64 - 1 := rfl
+  have e1 := hb.sclock; have e4 := hb.cseq; have e5 := hb.gseq; have e6 := hb.chseq
+  have hsu : s.update d = .ok (srvTick s d) := server_update_eq (by omega)
+  have hs1 := hs.tick hd (by omega)
+  obtain ⟨out, c1, hcu, hc1, hsame, htime, hsq, hout⟩ := cli_resp_update hT hc hb.cb hd (by omega)
+  have hcb : CBudget c1 (T - d) := hb.cb.step hd htime hsame.tok hsame.start (Or.inl hsame.recv)
+  obtain ⟨s2, hup, hs2, t2, g2, c2⟩ := srv_conn_up (me := me) (f := f) (out := out) hT hs1
+    (by show s.globalSequence < _; omega) (by show s.challengeSequence < _; omega) hc.cs
+    (by show c.sequence < 2 ^ 64; omega)
+    (by rcases hout with ⟨h, _⟩ | ⟨h, _⟩
+        · exact Or.inl h
+        · exact Or.inr ⟨c.serverAddr, by rw [h, responseBytes_eq hc]⟩)
+  obtain ⟨r', s3, htick, hs3, t3, g3, c3⟩ := hs2.updateClient_any (a := a) (by rw [t2]; show s.currentTime + d + _ ≤ _; omega)
+  exact ⟨c1, s3, round_intro hsu hcu hup htick (down_lossy a addr hf _ _ _), hc1, hs3,
+    hb.step hd hcb (by rw [t3, t2]) hsq (by rw [g3, g2]; exact Nat.le_succ _) (by rw [c3, c2]; exact Nat.le_succ _), hsame,
+    htime, by rw [t3, t2]⟩
+
+/-- **the keep-alive was lost, a `delivered` round of at least the send rate**: the server's tick sends a keep-alive
+    (its send timer is due) and the client, still answering the challenge, becomes connected on it -/
+theorem round_half_delivered (hT : TokOK a s0 t expire xnonce) {c : NetcodeClient} {s : NetcodeServer} {T N D d : Nat}
+    (hc : CliResp a s0 t expire xnonce c) (hs : SrvConn s0 addr t expire T (N + 1) D s)
+    (hb : Budget t expire c s T (N + 1)) (hd : d ≤ T) (hrate : C.NETCODE_SEND_RATE_NS ≤ d) :
+    ∃ c' s', round a addr me t.clientId .delivered d (c, s) = some (c', s') ∧ Established addr t expire c' s' ∧
+      c'.currentTime = c.currentTime + d ∧ s'.currentTime = s.currentTime + d := by
+  have hU : U64_MAX = 2 ^ 64 - 1 := rfl
+  have e1 := hb.sclock; have e4 := hb.cseq; have e5 := hb.gseq; have e6 := hb.chseq
+  have hsu : s.update d = .ok (srvTick s d) := server_update_eq (by omega)
+  have hs1 := hs.tick hd (by omega)
+  obtain ⟨out, c1, hcu, hc1, hsame, htime, hsq, hout⟩ := cli_resp_update hT hc hb.cb hd (by omega)
+  obtain ⟨s2, hup, hs2, t2, g2, c2⟩ := srv_conn_up (me := me) (f := .delivered) (out := out) hT hs1
+    (by show s.globalSequence < _; omega) (by show s.challengeSequence < _; omega) hc.cs
+    (by show c.sequence < 2 ^ 64; omega)
+    (by rcases hout with ⟨h, _⟩ | ⟨h, _⟩
+        · exact Or.inl h
+        · exact Or.inr ⟨c.serverAddr, by rw [h, responseBytes_eq hc]⟩)
+  obtain ⟨i, cn, hat, hid, hsq2, htick, hinv3⟩ := hs2.updateClient_due (a := a)
+    (by rw [t2]; show s.currentTime + d + _ ≤ _; omega) (by omega)
+  obtain ⟨f1, f2, f3, f4, f5, f6, f7⟩ := identT_fields hid
+  have hka := progress_keepalive a hT.laws (c := c1) (s := s2) (p := cn) (i := i) hc1.st
+    (hc1.tok.s2c.trans f4.symm) (hc1.tok.pid.trans hs2.cfg.protocolId.symm) hsq2 (hc1.rp _)
+  refine ⟨_, _, round_intro hsu hcu hup htick (down_second a addr rfl (by simp [answerTo]) hka),
+    ⟨rfl, hinv3, i, _, at_set_self (at_lt hat), hid⟩, htime, ?_⟩
+  show s2.currentTime = _
+  rw [t2]
+
+/-! ### B.6 schedules -/
+
+/-- no round of the schedule is `delivered`: the client hears nothing -/
+def Lossy (sched : List (Fate × Nat)) : Prop := ∀ x ∈ sched, x.1 ≠ .delivered
+
+instance (sched : List (Fate × Nat)) : Decidable (Lossy sched) := by unfold Lossy; infer_instance
+
+/-- **request phase, any number of rounds in which the client hears nothing** -/
+theorem run_req_lossy (hT : TokOK a s0 t expire xnonce) : ∀ (sched : List (Fate × Nat)) {c : NetcodeClient}
+    {s : NetcodeServer} {T N : Nat}, CliReq a s0 t expire xnonce c → SrvOpen a s0 addr t expire xnonce s →
+    Budget t expire c s T (N + sched.length) → totalTime sched ≤ T → (Lossy sched ∨ c.serverAddr ≠ me) →
+    ∃ c' s', runRounds a addr me t.clientId sched (c, s) = some (c', s') ∧ CliReq a s0 t expire xnonce c' ∧
+      SrvOpen a s0 addr t expire xnonce s' ∧ Budget t expire c' s' (T - totalTime sched) N ∧ CliSame c c' ∧
+      c'.currentTime = c.currentTime + totalTime sched ∧ s'.currentTime = s.currentTime + totalTime sched
+  | [], c, s, T, N, hc, hs, hb, _, _ => ⟨c, s, rfl, hc, hs, hb, CliSame.refl c, rfl, rfl⟩
+  | (f, d) :: rest, c, s, T, N, hc, hs, hb, ht, hl => by
+    simp only [totalTime] at ht ⊢
+    have hb' : Budget t expire c s T (N + rest.length + 1) := hb
+    obtain ⟨c1, s1, hr, hc1, hs1, hb1, hsame1, ht1, hst1⟩ := round_req_lossy (me := me) (f := f) (d := d) hT hc hs hb' (by omega)
+      (by rcases hl with h | h
+          · exact Or.inl (h (f, d) (by simp))
+          · exact Or.inr h)
+    obtain ⟨c2, s2, hr2, hc2, hs2, hb2, hsame2, ht2, hst2⟩ := run_req_lossy hT rest hc1 hs1 hb1 (by omega)
+      (by rcases hl with h | h
+          · exact Or.inl (fun x hx => h x (List.mem_cons_of_mem _ hx))
+          · exact Or.inr (by rw [hsame1.srv]; exact h))
+    refine ⟨c2, s2, by simp only [runRounds, hr, Option.bind_some, hr2], hc2, hs2, ?_, hsame1.trans hsame2,
+      by rw [ht2, ht1]; omega, by rw [hst2, hst1]; omega⟩
+    have : T - d - totalTime rest = T - (d + totalTime rest) := by omega
+    rw [← this]; exact hb2
+
+/-- the server side of the response phase: it still holds the half-open session, or (the keep-alive was lost) the
+    session already -/
+def RespSrv (a : AEAD) (s0 : NetcodeServer) (addr : Addr) (t : PrivateConnectToken) (expire : Nat) (xnonce : Bytes)
+    (T N : Nat) (s : NetcodeServer) : Prop :=
+  (SrvOpen a s0 addr t expire xnonce s ∧
+      ∃ p, pendingFind s.pendingClients addr = some p ∧ ident p = identT addr expire t) ∨
+    SrvConn s0 addr t expire T N 0 s
+
+/-- **response phase, any number of rounds in which the client hears nothing** -/
+theorem run_resp_lossy (hT : TokOK a s0 t expire xnonce) : ∀ (sched : List (Fate × Nat)) {c : NetcodeClient}
+    {s : NetcodeServer} {T N : Nat}, CliResp a s0 t expire xnonce c →
+    RespSrv a s0 addr t expire xnonce T (N + sched.length) s →
+    Budget t expire c s T (N + sched.length) → totalTime sched ≤ T → Lossy sched →
+    ∃ c' s', runRounds a addr me t.clientId sched (c, s) = some (c', s') ∧ CliResp a s0 t expire xnonce c' ∧
+      RespSrv a s0 addr t expire xnonce (T - totalTime sched) N s' ∧ Budget t expire c' s' (T - totalTime sched) N ∧
+      CliSame c c' ∧ c'.currentTime = c.currentTime + totalTime sched ∧
+      s'.currentTime = s.currentTime + totalTime sched
+  | [], c, s, T, N, hc, hs, hb, _, _ => ⟨c, s, rfl, hc, hs, hb, CliSame.refl c, rfl, rfl⟩
+  | (f, d) :: rest, c, s, T, N, hc, hs, hb, ht, hl => by
+    simp only [totalTime] at ht ⊢
+    have hb' : Budget t expire c s T (N + rest.length + 1) := hb
+    have hf : f ≠ .delivered := hl (f, d) (by simp)
+    have hl' : Lossy rest := fun x hx => hl x (List.mem_cons_of_mem _ hx)
+    have key : ∃ c1 s1, round a addr me t.clientId f d (c, s) = some (c1, s1) ∧ CliResp a s0 t expire xnonce c1 ∧
+        RespSrv a s0 addr t expire xnonce (T - d) (N + rest.length) s1 ∧
+        Budget t expire c1 s1 (T - d) (N + rest.length) ∧ CliSame c c1 ∧ c1.currentTime = c.currentTime + d ∧
+        s1.currentTime = s.currentTime + d := by
+      rcases hs with ⟨hso, hp⟩ | hsc
+      · obtain ⟨c1, s1, hr, hc1, hs1, hb1, hsame1, ht1, hst1⟩ := round_resp_lossy (me := me) (f := f) (d := d) hT hc hso hp hb'
+          (by omega) (Or.inl hf)
+        exact ⟨c1, s1, hr, hc1, hs1, hb1, hsame1, ht1, hst1⟩
+      · have hsc' : SrvConn s0 addr t expire T (N + rest.length + 1) 0 s := hsc
+        obtain ⟨c1, s1, hr, hc1, hs1, hb1, hsame1, ht1, hst1⟩ := round_half_lossy (me := me) (f := f) (d := d) hT hc hsc' hb'
+          (by omega) hf
+        exact ⟨c1, s1, hr, hc1, Or.inr hs1, hb1, hsame1, ht1, hst1⟩
+    obtain ⟨c1, s1, hr, hc1, hs1, hb1, hsame1, ht1, hst1⟩ := key
+    obtain ⟨c2, s2, hr2, hc2, hs2, hb2, hsame2, ht2, hst2⟩ := run_resp_lossy hT rest hc1 hs1 hb1 (by omega) hl'
+    have e : T - d - totalTime rest = T - (d + totalTime rest) := by omega
+    refine ⟨c2, s2, by simp only [runRounds, hr, Option.bind_some, hr2], hc2, ?_, ?_, hsame1.trans hsame2,
+      by rw [ht2, ht1]; omega, by rw [hst2, hst1]; omega⟩
+    · rw [← e]; exact hs2
+    · rw [← e]; exact hb2
+
+/-- **response phase, a `delivered` round of at least the send rate connects both sides** — whether the server still
+    waits for the response or already holds the session -/
+theorem round_resp_final (hT : TokOK a s0 t expire xnonce) {c : NetcodeClient} {s : NetcodeServer} {T N d : Nat}
+    (hc : CliResp a s0 t expire xnonce c) (hs : RespSrv a s0 addr t expire xnonce T (N + 1) s)
+    (hb : Budget t expire c s T (N + 1)) (hd : d ≤ T) (hme : c.serverAddr = me)
+    (hgate : GateOpen c d) (hrate : C.NETCODE_SEND_RATE_NS ≤ d) :
+    ∃ c' s', round a addr me t.clientId .delivered d (c, s) = some (c', s') ∧ Established addr t expire c' s' ∧
+      c'.currentTime = c.currentTime + d ∧ s'.currentTime = s.currentTime + d := by
+  rcases hs with ⟨hso, hp⟩ | hsc
+  · exact round_resp_delivered hT hc hso hp hb hd hme hgate
+  · exact round_half_delivered hT hc hsc hb hd hrate
+
+/-! ### B.7 failover -/
+
+/-- the client after the `update(d)` that gave up on its current server and sent the request to `next` -/
+abbrev failedOver (c : NetcodeClient) (d : Nat) (next : Addr) : NetcodeClient :=
+  { c with currentTime := c.currentTime + d, state := .sendingConnectionRequest
+           serverAddrIndex := c.serverAddrIndex + 1, serverAddr := next, connectStartTime := c.currentTime + d
+           lastPacketSendTime := some (c.currentTime + d), lastPacketReceivedTime := c.currentTime + d
+           challengeTokenSequence := 0, sequence := c.sequence + 1 }
+
+/-- **the `update(d)` in which the silence time-out fires**: the client moves to the next server address of its
+    token, resets its timers, and — its send timer being cleared — sends the connection request there in the same
+    call -/
+theorem update_failover (a : AEAD) (hl : a.Laws) {c : NetcodeClient} {s : NetcodeServer} {t : PrivateConnectToken}
+    {expire : Nat} {xnonce : Bytes} {d : Nat} {next : Addr} (hst : Connecting c) (hok : ClockOK c d)
+    (hwin : asSecs (c.currentTime + d - c.connectStartTime) < tokenWindow c)
+    (hto : CTimedOut c (c.currentTime + d))
+    (hnext : c.connectToken.serverAddresses[c.serverAddrIndex + 1]? = some (some next))
+    (hidx : c.serverAddrIndex + 1 < C.NETCODE_TOKEN_MAX_ADDRESSES)
+    (htok : TokenFor a s t expire xnonce c.connectToken) (hwf : PTokenWF t) (hxn : xnonce.length = 24)
+    (hseq : c.sequence < U64_MAX) :
+    c.update a d = .ok (some (requestBytes a s t expire xnonce, next), failedOver c d next) := by
+  unfold NetcodeClient.update
+  rw [client_connecting_eq hst hok]
+  simp only [if_neg (Nat.not_le.mpr hwin), if_pos hto, if_neg (Nat.not_le.mpr hidx), hnext, bind_ok']
+  exact progress_send_request a hl
+    (c := { c with currentTime := c.currentTime + d, state := .sendingConnectionRequest
+                   serverAddrIndex := c.serverAddrIndex + 1, serverAddr := next, connectStartTime := c.currentTime + d
+                   lastPacketSendTime := none, lastPacketReceivedTime := c.currentTime + d
+                   challengeTokenSequence := 0 })
+    htok hwf hxn rfl rfl hseq
+
+/-- **the failover round**: the time-out fires in the client's `update`, the request goes to the next address `me`,
+    whose server answers with a challenge — the client is in the response phase with the new server -/
+theorem round_failover (hT : TokOK a s0 t expire xnonce) {c : NetcodeClient} {s : NetcodeServer} {d : Nat}
+    (hc : CliReq a s0 t expire xnonce c) (hs : SrvOpen a s0 addr t expire xnonce s) (hok : ClockOK c d)
+    (hwin : asSecs (c.currentTime + d - c.connectStartTime) < tokenWindow c)
+    (hto : CTimedOut c (c.currentTime + d))
+    (hnext : c.connectToken.serverAddresses[c.serverAddrIndex + 1]? = some (some me))
+    (hidx : c.serverAddrIndex + 1 < C.NETCODE_TOKEN_MAX_ADDRESSES) (hseq : c.sequence < U64_MAX)
+    (hclk : s.currentTime + d ≤ DURATION_MAX) (hg : s.globalSequence + 1 < U64_MAX)
+    (hch : s.challengeSequence + 1 < U64_MAX) (hnow : asSecs (s.currentTime + d) < expire) :
+    ∃ c' s', round a addr me t.clientId .delivered d (c, s) = some (c', s') ∧ CliResp a s0 t expire xnonce c' ∧
+      SrvOpen a s0 addr t expire xnonce s' ∧
+      (∃ p, pendingFind s'.pendingClients addr = some p ∧ ident p = identT addr expire t) ∧
+      s'.currentTime = s.currentTime + d ∧ s'.globalSequence = s.globalSequence + 1 ∧
+      s'.challengeSequence = s.challengeSequence + 1 ∧
+      c'.lastPacketSendTime = none ∧ c'.currentTime = c.currentTime + d ∧
+      c'.lastPacketReceivedTime = c.currentTime + d ∧ c'.connectStartTime = c.currentTime + d ∧
+      c'.connectToken = c.connectToken ∧ c'.sequence = c.sequence + 1 ∧ c'.serverAddr = me ∧
+      c'.sendRate = c.sendRate := by
+  have hcu := update_failover a hT.laws (Or.inl hc.st) hok hwin hto hnext hidx hc.tok hT.wf hT.xn hseq
+  have hc1 : CliReq a s0 t expire xnonce (failedOver c d me) :=
+    ⟨rfl, hc.tok, fun tm e => by simp only [Option.some.injEq] at e; subst e; exact Nat.le_refl _, hc.rp⟩
+  obtain ⟨c', s', hr, hc', hs', hp, e1, e2, e3, e4, e5, e6, e7, e8, e9, e10, e11⟩ :=
+    round_request_arrives hT hcu hc1 hs hclk hg hch hnow
+  exact ⟨c', s', hr, hc', hs', hp, e1, e2, e3, e4, e5, e6, e7, e8, e9, e10, e11⟩
+
+/-! ### B.8 where the phases start -/
+
+/-- a server that is open for this client in the sense of `C18P.handshake_round_partial`: no half-open session of
+    the address yet, room in the pending map, the token not bound to another address -/
+theorem srvOpen_of_fresh {s : NetcodeServer} (hi : ServerInv s)
+    (hfa : findClientByAddr s.clients addr = none) (hfi : findClientById s.clients t.clientId = none)
+    (hpf : pendingFind s.pendingClients addr = none)
+    (hroom : s.pendingClients.length < C.NETCODE_MAX_PENDING_CLIENTS)
+    (hbind : (s.findOrAddConnectTokenEntry ⟨s.currentTime, addr, tokenMac (sealedPriv a s t expire xnonce)⟩).2 = true)
+    (hlt : countConnected s.clients < s.maxClients) : SrvOpen a s addr t expire xnonce s :=
+  ⟨SameCfg.refl s, hi, hfa, hfi, by rw [pendingRemove_of_none hpf]; exact hroom,
+    bound_of_binding hi.entries _ hbind, hlt⟩
+
+/-- a client fresh from `NetcodeClient::new` with a token for the server is in the request phase, has sent nothing,
+    and uses the standard send rate -/
+theorem cliReq_of_new {tm : Nat} {ct : ConnectToken} {c : NetcodeClient} (h : NetcodeClient.new tm ct = .ok c)
+    (htok : TokenFor a s0 t expire xnonce ct) :
+    CliReq a s0 t expire xnonce c ∧ c.lastPacketSendTime = none ∧ c.sendRate = C.NETCODE_SEND_RATE_NS ∧
+      c.currentTime = tm ∧ c.connectStartTime = tm ∧ c.lastPacketReceivedTime = tm ∧ c.connectToken = ct ∧
+      c.sequence = 0 ∧ c.serverAddrIndex = 0 ∧ ct.serverAddresses.head? = some (some c.serverAddr) := by
+  unfold NetcodeClient.new at h
+  split at h
+  · rename_i ad hhead
+    simp only [Res.ok.injEq] at h
+    subst h
+    exact ⟨⟨rfl, htok, (fun _ e => by cases e), rp_new_fresh⟩, rfl, rfl, rfl, rfl, rfl, rfl, rfl, rfl, hhead⟩
+  · cases h
+
+end Rounds
 
 end RenetVerif.NcLive2
